@@ -30,13 +30,14 @@ def gen_chunk(R):
         impl.line(l.split())
     nact = sum(1 for l in lines if l.startswith("prog "))
     times = [0, 1024, 2048, 3072, 4096, 1024, 2048] if kind == "abm" else [0, 512, 1024, 1536, 2048, 100, 3000, 1024]
-    for _ in range(R.randrange(0, 7)):
+    # sometimes a long queue (a dozen or more pending events): pushing the not-yet-due head back must keep the order
+    for _ in range(R.randrange(0, 7) if R.random() < 0.7 else R.randrange(10, 30)):
         l = f"abs {R.choice(times)} {R.choice(D.PRIOS)} {R.randrange(nact)}"
         impl.line(l.split())
         lines.append(l)
     T = R.choice([1024, 2048, 3072, 4096, 5120]) if kind == "abm" else R.choice([512, 1024, 2048, 3000, 4096])
     n_setup = len(lines)
-    for _ in range(R.randrange(0, 7)):
+    for _ in range(R.randrange(0, 7) if R.random() < 0.8 else R.randrange(6, 14)):
         now = impl.now()
         k = R.random()
         if k < 0.35:
